@@ -153,3 +153,74 @@ def c02c(ck, prog):
     for v in mv:
         ok = rec.get(v) == {v} and (not names or names.get(v) == v)
         ck.ob(R, "method:%s" % v, ok, m.loc(None), "" if ok else "Method::from_bytes maps %r to %s and as_str renders it %r: the token must be exactly %r both ways" % (sorted(rec.get(v, [])), v, names.get(v), v), how="%r <-> %s" % (v, v))
+
+
+def c02d(ck, prog):
+    R = "C02-d USED-RESULT"
+    f = prog.one(r"^ohkami::request::Request::read::\{closure#0\}$")
+    # the first read: AsyncReadExt::read(stream, buf) -> future -> poll -> Ready(Ok(n))
+    rd = f.calls_to(r"AsyncReadExt::read$|io::AsyncReadExt::read$")
+    if not rd:
+        raise AnchorLost("the stream.read(..) call of Request::read was not found")
+    # find uses of the Ok payload: places `((X as Ready).0 as Ok).0`
+    uses = []
+    for bi, b in enumerate(f.blocks):
+        if b["cleanup"]:
+            continue
+        for st in b["st"]:
+            if st["k"] != "=":
+                continue
+            txt = str(st["r"])
+            if "'dc', 'Ok'" in txt:
+                for pl in places_in(st["r"]):
+                    if any(pr[0] == "dc" and pr[1] == "Ok" for pr in pl[1]):
+                        uses.append((bi, st, pl))
+        t = b["t"]
+        if t["k"] == "switch":
+            pl = t["discr"][1] if t["discr"][0] in ("c", "m") else None
+            if pl and any(pr[0] == "dc" and pr[1] == "Ok" for pr in pl[1]):
+                uses.append((bi, t, pl))
+    # classify: a use that only feeds a switch (the `Ok(0)` test) vs a use that binds the count
+    binds = []
+    for bi, st, pl in uses:
+        if isinstance(st, dict) and st.get("k") == "=":
+            dst = st["p"][0]
+            binds.append((bi, dst))
+    flows = []
+    for bi, dst in binds:
+        # does the bound local reach something other than a comparison with 0?
+        for bj, b in enumerate(f.blocks):
+            if b["cleanup"]:
+                continue
+            for st in b["st"]:
+                if st["k"] == "=" and mentions_local(st["r"], dst):
+                    flows.append((bj, st["r"][0]))
+            t = b["t"]
+            if t["k"] == "call" and any(mentions_local(a, dst) for a in t["args"]):
+                flows.append((bj, "call:" + (t.get("callee") or "?")))
+    real = [x for x in flows if not (x[1] == "bin")]
+    ok = len(real) > 0
+    ck.ob(R, "read-count", ok, f.loc(rd[0].sp),
+          "" if ok else "the byte count returned by stream.read(&mut buf) is only tested against 0 and then dropped: the parser cannot tell received zero bytes from unreceived ones (a body starting with \\0 in the head's segment makes the server wait for bytes that already arrived)",
+          how="Ok(n) flows into %s" % sorted({x[1] for x in real})[:4])
+
+
+def places_in(r):
+    out = []
+
+    def rec(x):
+        if isinstance(x, list):
+            if len(x) == 2 and isinstance(x[0], int) and isinstance(x[1], list) and all(isinstance(p, list) for p in x[1]):
+                out.append(x)
+                return
+            for y in x:
+                rec(y)
+        elif isinstance(x, dict):
+            for y in x.values():
+                rec(y)
+    rec(r)
+    return out
+
+
+def mentions_local(x, l):
+    return any(p[0] == l for p in places_in(x))
